@@ -139,6 +139,7 @@ struct Obj {
   int users = 0;                       // container: live clippers that added it since their last Clear
   // ---- history bookkeeping for the distinct-nontrivial measure
   int n_exec = 0, n_clear = 0, n_add = 0, n_opt = 0, n_reuse = 0;
+  std::string hist;                    // one letter per operation applied to this object (distinct-history measure)
   int sticky_err = 0;                  // error flags raised by rejected input so far (ErrorCode() is documented as cumulative)
 };
 
@@ -236,10 +237,9 @@ template <typename T, typename TR> static std::string dump_out(bool ret, int err
 }
 
 static std::string hist_shape(const char* cls, const Obj& o, const char* execkind) {
-  char b[160];
-  snprintf(b, sizeof b, "%s|add=%d,reuse=%d,opt=%d,exec=%d,clear=%d|%s", cls, o.n_add > 3 ? 3 : o.n_add, o.n_reuse > 2 ? 2 : o.n_reuse,
-           o.n_opt > 2 ? 2 : o.n_opt, o.n_exec > 3 ? 3 : o.n_exec, o.n_clear > 2 ? 2 : o.n_clear, execkind);
-  return b;
+  // (object class, the last up-to-8 operations applied to the object before this Execute, kind of compared Execute)
+  std::string h = o.hist.size() > 8 ? o.hist.substr(o.hist.size() - 8) : o.hist;
+  return std::string(cls) + "|" + h + "|" + execkind;
 }
 
 // canonical cyclic form of a closed path: rotate so that the smallest (x,y[,z]) vertex comes first; direction kept
@@ -345,12 +345,12 @@ static void h_c_add(Ctx& c, const Op& op, int idx, OpResult& r) {
   if (o->type == T_C64 && op.hasP[0]) {
     Batch b; b.kind = kind; b.p = to64(op.P[0]);
     { Scope sc(idx); if (kind == 0) o->c64->AddSubject(b.p); else if (kind == 1) o->c64->AddOpenSubject(b.p); else o->c64->AddClip(b.p); }
-    o->batches.push_back(std::move(b)); ++o->n_add;
+    o->batches.push_back(std::move(b)); { ++o->n_add; o->hist += 'a'; }
   } else if (o->type == T_CD && op.hasD[0]) {
     Batch b; b.kind = kind; b.pd = toD(op.D[0]);
     try { Scope sc(idx); if (kind == 0) o->cd->AddSubject(b.pd); else if (kind == 1) o->cd->AddOpenSubject(b.pd); else o->cd->AddClip(b.pd); }
     catch (const Clipper2Exception&) { o->sticky_err |= o->cd->ErrorCode(); throw; }   // rejected input: nothing was added, the error flag stays
-    o->batches.push_back(std::move(b)); ++o->n_add;
+    o->batches.push_back(std::move(b)); { ++o->n_add; o->hist += 'a'; }
   } else SKIP(r);
 }
 static void h_c_reuse(Ctx& c, const Op& op, int idx, OpResult& r) {
@@ -360,7 +360,7 @@ static void h_c_reuse(Ctx& c, const Op& op, int idx, OpResult& r) {
   if (o->type == T_C64) { Scope sc(idx); o->c64->AddReuseableData(*k->cont); }
   else { Scope sc(idx); o->cd->AddReuseableData(*k->cont); }  // integer vertices are taken as they are (no scaling)
   for (const Batch& b : k->batches) { o->batches.push_back(b); o->batches.back().raw64 = true; } // snapshot of the container's content at this moment
-  o->using_conts.push_back(op.o2); if (op.o2 < 100) ++k->users; ++o->n_reuse;   // shared (set-up) containers are read-only for tasks, also in the model
+  o->using_conts.push_back(op.o2); if (op.o2 < 100) ++k->users; { ++o->n_reuse; o->hist += 'r'; }   // shared (set-up) containers are read-only for tasks, also in the model
 }
 static void h_c_pc(Ctx& c, const Op& op, int idx, OpResult& r) {
   Obj* o = c.get(op.o); if (!o) SKIP(r);
@@ -369,7 +369,7 @@ static void h_c_pc(Ctx& c, const Op& op, int idx, OpResult& r) {
   else if (o->type == T_CD) { Scope sc(idx); o->cd->PreserveCollinear(v); }
   else if (o->type == T_OFF) { Scope sc(idx); o->off->PreserveCollinear(v); }
   else SKIP(r);
-  o->pc = v; ++o->n_opt;
+  o->pc = v; { ++o->n_opt; o->hist += 'o'; }
 }
 static void h_c_rs(Ctx& c, const Op& op, int idx, OpResult& r) {
   Obj* o = c.get(op.o); if (!o) SKIP(r);
@@ -378,7 +378,7 @@ static void h_c_rs(Ctx& c, const Op& op, int idx, OpResult& r) {
   else if (o->type == T_CD) { Scope sc(idx); o->cd->ReverseSolution(v); }
   else if (o->type == T_OFF) { Scope sc(idx); o->off->ReverseSolution(v); }
   else SKIP(r);
-  o->rs = v; ++o->n_opt;
+  o->rs = v; { ++o->n_opt; o->hist += 'o'; }
 }
 static void h_c_setz(Ctx& c, const Op& op, int idx, OpResult& r) {
 #ifdef USINGZ
@@ -388,7 +388,7 @@ static void h_c_setz(Ctx& c, const Op& op, int idx, OpResult& r) {
   else if (o->type == T_CD) { auto cb = make_zcbD(kind); Scope sc(idx); o->cd->SetZCallback(cb); }
   else if (o->type == T_OFF) { auto cb = make_zcb64(kind); Scope sc(idx); o->off->SetZCallback(cb); }
   else SKIP(r);
-  o->zkind = kind; ++o->n_opt;
+  o->zkind = kind; { ++o->n_opt; o->hist += 'o'; }
 #else
   (void)c; (void)op; (void)idx; SKIP(r);
 #endif
@@ -400,7 +400,7 @@ static void h_c_defz(Ctx& c, const Op& op, int idx, OpResult& r) {
   if (o->type == T_C64) o->c64->DefaultZ = ai(op, 0);
   else if (o->type == T_CD) o->cd->DefaultZ = ai(op, 0);
   else SKIP(r);
-  o->defz = ai(op, 0); ++o->n_opt;
+  o->defz = ai(op, 0); { ++o->n_opt; o->hist += 'o'; }
 #else
   (void)c; (void)op; (void)idx; SKIP(r);
 #endif
@@ -410,14 +410,14 @@ static void h_c_clear(Ctx& c, const Op& op, int idx, OpResult& r) {
   if (op.o >= 100 && c.task != -1) SKIP(r);
   if (o->type == T_C64) { Scope sc(idx); o->c64->Clear(); }
   else if (o->type == T_CD) { Scope sc(idx); o->cd->Clear(); }
-  else if (o->type == T_OFF) { { Scope sc(idx); o->off->Clear(); } o->groups.clear(); ++o->n_clear; return; }
+  else if (o->type == T_OFF) { { Scope sc(idx); o->off->Clear(); } o->groups.clear(); { ++o->n_clear; o->hist += 'C'; } return; }
   else if (o->type == T_CONT) {
     if (o->users > 0) SKIP(r);                               // still in use by a clipper
     { Scope sc(idx); o->cont->Clear(); }
-    o->batches.clear(); ++o->n_clear; return;
+    o->batches.clear(); { ++o->n_clear; o->hist += 'C'; } return;
   }
   else SKIP(r);
-  o->batches.clear(); release_conts(c, *o); ++o->n_clear;
+  o->batches.clear(); release_conts(c, *o); { ++o->n_clear; o->hist += 'C'; }
 }
 
 static void fill_junk(Paths64& p) { p.push_back(Path64{Point64(1, 2), Point64(3, 4), Point64(5, 6)}); p.push_back(Path64()); }
@@ -454,7 +454,7 @@ static void h_c_exec(Ctx& c, const Op& op, int idx, OpResult& r) {
         r.sig = r.shape;
       }
     }
-    ++o->n_exec;
+    { ++o->n_exec; o->hist += 'x'; }
   } else if (o->type == T_CD) {
     std::unique_ptr<ClipOutD> a_holder(new ClipOutD()); ClipOutD& a = *a_holder;
     if (junk) { fill_junk(a.closed); fill_junk(a.open); a.tree.AddChild(PathD{PointD(9, 9), PointD(8, 8), PointD(7, 1)}); }
@@ -482,7 +482,7 @@ static void h_c_exec(Ctx& c, const Op& op, int idx, OpResult& r) {
         r.sig = r.shape;
       }
     }
-    ++o->n_exec;
+    { ++o->n_exec; o->hist += 'x'; }
   } else SKIP(r);
 }
 
@@ -494,7 +494,7 @@ static void h_k_add(Ctx& c, const Op& op, int idx, OpResult& r) {
   if (type == 1 && open) open = false;                           // open clip paths are not part of the API
   Batch b; b.p = to64(op.P[0]); b.kind = type == 1 ? 2 : (open ? 1 : 0);
   { Scope sc(idx); o->cont->AddPaths(b.p, type == 1 ? PathType::Clip : PathType::Subject, open); }
-  o->batches.push_back(std::move(b)); ++o->n_add;
+  o->batches.push_back(std::move(b)); { ++o->n_add; o->hist += 'a'; }
 }
 
 // ---- offset
@@ -502,28 +502,28 @@ static void h_f_addpath(Ctx& c, const Op& op, int idx, OpResult& r) {
   Obj* o = c.get(op.o); if (!o || o->type != T_OFF || !op.hasP[0] || op.P[0].empty()) SKIP(r);
   OffGroup g; g.jt = (int)jt_of(ai(op, 0)); g.et = (int)et_of(ai(op, 1)); g.single = true; g.paths.push_back(to64(op.P[0][0]));
   { Scope sc(idx); o->off->AddPath(g.paths[0], (JoinType)g.jt, (EndType)g.et); }
-  o->groups.push_back(std::move(g)); ++o->n_add;
+  o->groups.push_back(std::move(g)); { ++o->n_add; o->hist += 'a'; }
 }
 static void h_f_addpaths(Ctx& c, const Op& op, int idx, OpResult& r) {
   Obj* o = c.get(op.o); if (!o || o->type != T_OFF || !op.hasP[0]) SKIP(r);
   OffGroup g; g.jt = (int)jt_of(ai(op, 0)); g.et = (int)et_of(ai(op, 1)); g.paths = to64(op.P[0]);
   { Scope sc(idx); o->off->AddPaths(g.paths, (JoinType)g.jt, (EndType)g.et); }
   if (!g.paths.empty()) o->groups.push_back(std::move(g));       // AddPaths of an empty list adds no group
-  ++o->n_add;
+  { ++o->n_add; o->hist += 'a'; }
 }
 static void h_f_miter(Ctx& c, const Op& op, int idx, OpResult& r) {
   Obj* o = c.get(op.o); if (!o || o->type != T_OFF) SKIP(r);
-  { Scope sc(idx); o->off->MiterLimit(ad(op, 0, 2.0)); } o->miter = ad(op, 0, 2.0); ++o->n_opt;
+  { Scope sc(idx); o->off->MiterLimit(ad(op, 0, 2.0)); } o->miter = ad(op, 0, 2.0); { ++o->n_opt; o->hist += 'o'; }
 }
 static void h_f_arc(Ctx& c, const Op& op, int idx, OpResult& r) {
   Obj* o = c.get(op.o); if (!o || o->type != T_OFF) SKIP(r);
-  { Scope sc(idx); o->off->ArcTolerance(ad(op, 0, 0.0)); } o->arc = ad(op, 0, 0.0); ++o->n_opt;
+  { Scope sc(idx); o->off->ArcTolerance(ad(op, 0, 0.0)); } o->arc = ad(op, 0, 0.0); { ++o->n_opt; o->hist += 'o'; }
 }
 static void h_f_setdcb(Ctx& c, const Op& op, int idx, OpResult& r) {
   Obj* o = c.get(op.o); if (!o || o->type != T_OFF) SKIP(r);
   int kind = (int)(((ai(op, 0) % 4) + 4) % 4); double base = ad(op, 0, 5.0);
   { auto cb = make_dcb(kind, base); Scope sc(idx); o->off->SetDeltaCallback(cb); }
-  o->dcb_kind = kind; o->dcb_base = base; ++o->n_opt;
+  o->dcb_kind = kind; o->dcb_base = base; { ++o->n_opt; o->hist += 'o'; }
 }
 
 struct OffOut { int err = 0; Paths64 sol; PolyTree64 tree; };
@@ -673,7 +673,7 @@ static void f_exec_common(Ctx& c, const Op& op, int idx, OpResult& r, Obj* o, do
     }
   }
   (void)op;
-  ++o->n_exec;
+  { ++o->n_exec; o->hist += 'x'; }
 }
 static void h_f_exec(Ctx& c, const Op& op, int idx, OpResult& r) {
   Obj* o = c.get(op.o); if (!o || o->type != T_OFF) SKIP(r);
@@ -683,7 +683,7 @@ static void h_f_execcb(Ctx& c, const Op& op, int idx, OpResult& r) {
   Obj* o = c.get(op.o); if (!o || o->type != T_OFF) SKIP(r);
   int kind = (int)(((ai(op, 0) % 3) + 3) % 3) + 1; double base = ad(op, 0, 5.0);
   // Execute(DeltaCallback64, Paths64&) is documented and implemented as SetDeltaCallback + Execute(1.0)
-  o->dcb_kind = kind; o->dcb_base = base; ++o->n_opt;
+  o->dcb_kind = kind; o->dcb_base = base; { ++o->n_opt; o->hist += 'o'; }
   f_exec_common(c, op, idx, r, o, 1.0, 0, ai(op, 1) != 0, ai(op, 2) != 0, true);
 }
 
@@ -707,7 +707,7 @@ static void h_r_exec(Ctx& c, const Op& op, int idx, OpResult& r) {
     if (hb.h != r.digest) { r.vclass = "history-rectclip"; r.detail = "used object: " + dump_paths(a) + "\nfresh object: " + dump_paths(b); r.sig = r.shape; }
     else if (hc.h != r.digest) { r.vclass = "rectclip-perpath"; r.detail = "whole call: " + dump_paths(a) + "\npath by path: " + dump_paths(cat); r.sig = r.shape; }
   }
-  ++o->n_exec;
+  { ++o->n_exec; o->hist += 'x'; }
 }
 
 // ------------------------------------------------------------------ free functions (C10 / C14 workloads)
